@@ -29,7 +29,7 @@ def spans(node, out=None) -> list:
     elif k == "HTML":
         out.append(("html", _ws(node[1])))
     elif k == "AUTO":
-        out.append(("url", node[1]))
+        out.append(("url", node[2] if len(node) > 2 and node[2] else node[1]))
     elif k in ("LINK", "IMG"):
         out.append(("dest", node[1]))
         out.append(("title", node[2]))
